@@ -404,7 +404,8 @@ def sam_envelope(offset, samples, fs, depth, fm, delay, equalize):
         eq_phase = sam_eq_phase(delay, depth, 1)
         eq_power = sam_eq_power(depth)
     else:
-        eq_phase = eq_power = 0
+        # No equalization: zero starting phase, unit scale
+        eq_phase, eq_power = 0, 1
     return _sam_envelope(offset, samples, fs, depth, fm, delay, eq_phase,
                          eq_power)
 
